@@ -913,8 +913,78 @@ fn check_tree_cmd(
   let _ = model_of_file;
 }
 
+/// A consumer that stalls: the printer cannot write, items pile up between the walker threads and
+/// the printing thread. However far the printer falls behind, every file must still be reported
+/// exactly once (the channel is part of the schedule the property quantifies over).
+fn slow_consumer(ctx: &Ctx, o: &mut Out) {
+  let n = if ctx.thorough { 4000 } else { 1800 };
+  let dir = scratch_root("slow", n as u64);
+  for i in 0..n {
+    std::fs::write(dir.join(format!("f{i:05}.js")), format!("console.log({i});\n")).unwrap();
+  }
+  let mut cases = 0usize;
+  for (threads, stall_ms) in [(1usize, 2500u64), (4, 2500), (16, 1200)] {
+    let mut child = Command::new(sg_bin())
+      .args(["run", "-p", PATTERN, "--json=stream", "-j", &threads.to_string()])
+      .arg(&dir)
+      .stdin(Stdio::null())
+      .stdout(Stdio::piped())
+      .stderr(Stdio::null())
+      .env("NO_COLOR", "1")
+      .spawn()
+      .expect("spawn agv-sg");
+    let mut so = child.stdout.take().unwrap();
+    // the reader does not touch the pipe for a while, then drains it
+    let reader = std::thread::spawn(move || {
+      std::thread::sleep(Duration::from_millis(stall_ms));
+      let mut v = vec![];
+      let _ = so.read_to_end(&mut v);
+      v
+    });
+    let start = Instant::now();
+    let code = loop {
+      match child.try_wait() {
+        Ok(Some(st)) => break st.code(),
+        Ok(None) if start.elapsed() > Duration::from_secs(120) => {
+          let _ = child.kill();
+          let _ = child.wait();
+          break None;
+        }
+        _ => std::thread::sleep(Duration::from_millis(5)),
+      }
+    };
+    let out = reader.join().unwrap_or_default();
+    let text = String::from_utf8_lossy(&out);
+    let mut files = std::collections::BTreeSet::new();
+    let mut records = 0usize;
+    let mut malformed = 0usize;
+    for line in text.lines().filter(|l| !l.trim().is_empty()) {
+      match serde_json::from_str::<Value>(line) {
+        Ok(v) => {
+          records += 1;
+          files.insert(v["file"].as_str().unwrap_or("").to_string());
+        }
+        Err(_) => malformed += 1,
+      }
+    }
+    cases += 1;
+    let ok = code == Some(0) && records == n && files.len() == n && malformed == 0;
+    if !ok {
+      o.oracle(
+        "c17_slow_consumer",
+        false,
+        json!({"fp": "stalled consumer: findings of a tree differ from the union of its files", "threads": threads, "stall_ms": stall_ms,
+               "files_in_tree": n, "records": records, "distinct_files": files.len(), "malformed": malformed, "exit": code}),
+      );
+    }
+  }
+  let _ = std::fs::remove_dir_all(&dir);
+  o.oracle("c17_slow_consumer", true, json!({"cases": cases, "files": n}));
+}
+
 pub fn worker_trees(ctx: &Ctx, rng: &mut Rng, o: &mut Out) {
   let pv = detect_priv();
+  slow_consumer(ctx, o);
   let sizes: Vec<usize> = if ctx.thorough { vec![50, 120, 200, 300, 400, 90, 250] } else { vec![50 + rng.below(30), 150 + rng.below(60), 400] };
   let threads = [1usize, 2, 4, 8, 16];
   let repeats = if ctx.thorough { 20 } else { 3 };
